@@ -81,7 +81,9 @@ func verifC11TLS() {
 	tlsEnabled, tlsRequired := verifrt.Bool("http-tls-enabled"), verifrt.Bool("http-tls-required")
 	hs := &httpServer{nsqd: n, tlsEnabled: tlsEnabled, tlsRequired: tlsRequired, router: r}
 	w := &verifRW{hdr: http.Header{}}
-	hs.ServeHTTP(w, verifReq("GET", "/ping", "", nil, false, 0))
+	greq := verifReq("GET", "/ping", "", nil, false, 0)
+	verifC11ProxyHeaders(greq)
+	hs.ServeHTTP(w, greq)
 	if !tlsEnabled && tlsRequired {
 		verifrt.Assert(w.status == 403 && r.calls == 0, "plaintext-http-refused-403-without-routing")
 		verifrt.Reach("http-refused", true)
@@ -142,7 +144,7 @@ func verifAuthd(o *Options, replies []verifAuthReply) (queries *int) {
 func verifGrant(tag string) auth.Authorization {
 	// representative grants (case split): everything; publish on t; subscribe on t/c; another
 	// topic; a channel pattern that matches nothing; no permission at all
-	switch verifrt.Choice(tag, 6) {
+	switch verifrt.Choice(tag, 7) {
 	case 0:
 		return auth.Authorization{Topic: ".*", Channels: []string{".*"}, Permissions: []string{"publish", "subscribe"}}
 	case 1:
@@ -153,6 +155,9 @@ func verifGrant(tag string) auth.Authorization {
 		return auth.Authorization{Topic: "^other$", Channels: []string{".*"}, Permissions: []string{"publish", "subscribe"}}
 	case 4:
 		return auth.Authorization{Topic: ".*", Channels: []string{"^nope$"}, Permissions: []string{"publish", "subscribe"}}
+	case 5:
+		// no channel pattern at all: matches no channel (and no publish, which asks with channel "")
+		return auth.Authorization{Topic: ".*", Channels: []string{}, Permissions: []string{"publish", "subscribe"}}
 	}
 	return auth.Authorization{Topic: ".*", Channels: []string{".*"}, Permissions: []string{}}
 }
@@ -179,7 +184,7 @@ func verifGrantAllows(g auth.Authorization, topic, channel string) bool {
 		}
 		return false
 	}
-	if !match(g.Topic, topic) {
+	if !match(g.Topic, topic) || len(g.Channels) == 0 {
 		return false
 	}
 	if channel == "" {
@@ -355,12 +360,28 @@ func VerifC11_MainWiresThePlaintextGate() {
 	r := &verifRouter{}
 	hs.router = r
 	w := &verifRW{hdr: http.Header{}}
-	hs.ServeHTTP(w, verifReq("POST", "/pub", "topic=t", []byte("x"), false, 1))
+	preq := verifReq("POST", "/pub", "topic=t", []byte("x"), false, 1)
+	verifC11ProxyHeaders(preq)
+	hs.ServeHTTP(w, preq)
 	if o.TLSRequired == TLSRequired {
 		verifrt.Assert(w.status == 403 && r.calls == 0, "tls-required-refuses-plaintext-http-whatever-listeners-exist")
 		verifrt.Reach("refused-without-https-listener", !haveHTTPS)
 	} else {
 		verifrt.Assert(r.calls == 1 && w.status != 403, "plaintext-http-served-when-tls-is-not-required-for-http")
 		verifrt.Reach("tcp-https-mode-serves-plaintext-http", o.TLSRequired == TLSRequiredExceptHTTP)
+	}
+}
+
+// whatever a plaintext client writes into its request headers proves nothing about the transport:
+// the gate looks at the connection, not at forwarded-for / forwarded-proto style claims
+func verifC11ProxyHeaders(req *http.Request) {
+	switch verifrt.Choice("client-supplied-headers", 3) {
+	case 1:
+		req.Header.Set("X-Forwarded-Proto", "https")
+		req.Header.Set("X-Forwarded-Ssl", "on")
+	case 2:
+		req.Header.Set("Forwarded", "proto=https")
+		req.Header.Set("X-Forwarded-For", "127.0.0.1")
+		req.Header.Set("Upgrade-Insecure-Requests", "1")
 	}
 }
